@@ -167,7 +167,7 @@ def run(ctx, name, kind, **kw):
         n = dom.n
         check_bad_secexp(ctx, curve, n)
         evs = sorted(set(list(range(0, 256, max(1, 256 // kw["ndig"]))) + [0, 1, n - 1, n, n + 1, 255, 128, 127]))
-        for d in range(1, n):
+        for d in gen.rotated(range(1, n), rng):      # all of them, starting anywhere: which scalar a fresh curve object sees first is part of the history
             sk = ecdsa.SigningKey.from_secret_exponent(d, curve, hashlib.sha256)
             check_pubkey(ctx, sk, curve, dom, d, "%s|%d" % (curve.name, d))
             for k in range(1, n):
